@@ -367,9 +367,9 @@ def run(ctx):
         ctx.note(case, nontrivial(case), classes_of(case, stats))
         ctx.handle(case, fails)
 
-    core.run_given(ctx, G.pair_case(), body, ctx.n(2200, 10000), label="c09-pairs")
-    core.run_given(ctx, G.triple_case(), body, ctx.n(350, 1600), label="c09-triples")
-    core.run_given(ctx, G.search_case(), body, ctx.n(200, 800), label="c09-search")
+    core.run_given(ctx, G.pair_case(), body, ctx.n(2200, 14000), label="c09-pairs")
+    core.run_given(ctx, G.triple_case(), body, ctx.n(350, 2200), label="c09-triples")
+    core.run_given(ctx, G.search_case(), body, ctx.n(200, 1100), label="c09-search")
     ctx.notes["generator_rejected_by_validator"] = seen["rejected"]
     if seen["rejected"] > 0.01 * max(seen["n"], 1):
         raise core.HarnessError("pattern generator unhealthy: %d of %d cases rejected by the third-party validator" % (seen["rejected"], seen["n"]))
